@@ -59,4 +59,65 @@ theorem bcdToIntF_fuel (v : Nat) : ∀ f, v ≤ f → TimeFmt.bcdToIntF f v = Ti
         have h2 := ih ((v + 1) / 16) (by omega) v h16
         simp only [TimeFmt.bcdToIntF, Nat.succ_ne_zero, if_false, h1, h2]
 
+/-! ### review additions (rev1-C08)
+  The five decoders of this file have NO loop and NO fuel parameter in their models (`grep fuel` on
+  Model/Ch11Misc.lean and on the `unpack` functions of Model/Ch11TimeFmt.lean finds nothing), so `≠ .error .fuel`
+  above holds by construction of the model and carries no information.  What C08 says about them is "returns or raises
+  an ordinary exception": the outcome lists below. -/
+
+theorem Analog_unpack_outcomes (t : Analog.State) (buf : Bytes) :
+    (Analog.unpack t buf).2 = .ok () ∨ (Analog.unpack t buf).2 = .error .struct := by
+  simp only [Analog.unpack]
+  repeat' split
+  all_goals first
+    | (simp; done)
+    | (rename_i e h; have := structUnpackFrom_error _ _ _ _ h; subst this; simp)
+
+theorem Analog_unpack_ok_iff (t : Analog.State) (buf : Bytes) :
+    (Analog.unpack t buf).2 = .ok () ↔ 4 ≤ buf.length := by
+  by_cases h : 4 ≤ buf.length
+  · simp [Analog.unpack, structUnpackFrom, Acra.Gen.Ch11Analog.AN_unpack_fmt0, Fmt.size, codesSize, Code.size, unpackCodes, h]
+  · simp [Analog.unpack, structUnpackFrom, Acra.Gen.Ch11Analog.AN_unpack_fmt0, Fmt.size, codesSize, Code.size, h]
+
+theorem CG0_unpack_outcomes (t : Computer.State0) (buf : Bytes) :
+    (Computer.State0.unpack t buf).2 = .ok () ∨ (Computer.State0.unpack t buf).2 = .error .struct := by
+  simp only [Computer.State0.unpack]
+  repeat' split
+  all_goals first
+    | (simp; done)
+    | (rename_i e h; have := structUnpackFrom_error _ _ _ _ h; subst this; simp)
+
+theorem CG1_unpack_outcomes (t : Computer.State1) (buf : Bytes) :
+    (Computer.State1.unpack t buf).2 = .ok () ∨ (Computer.State1.unpack t buf).2 = .error .struct := by
+  simp only [Computer.State1.unpack]
+  have := CG0_unpack_outcomes t.base buf
+  split
+  · rename_i b e he; rw [he] at this; simpa using this
+  · simp
+
+theorem TDF1_unpack_outcomes (t : TimeFmt.State1) (buf : Bytes) :
+    (TimeFmt.State1.unpack t buf).2 = .ok () ∨ (TimeFmt.State1.unpack t buf).2 = .error .struct ∨
+    (TimeFmt.State1.unpack t buf).2 = .error .value := by
+  simp only [TimeFmt.State1.unpack]
+  repeat' split
+  all_goals first
+    | (simp; done)
+    | (rename_i e h; have := structUnpackFrom_error _ _ _ _ h; subst this; simp)
+
+theorem TDF2_unpack_outcomes (fl : Rat → Rat) (t : TimeFmt.State2) (buf : Bytes) :
+    (TimeFmt.State2.unpackWith fl t buf).2 = .ok () ∨ (TimeFmt.State2.unpackWith fl t buf).2 = .error .struct := by
+  simp only [TimeFmt.State2.unpackWith]
+  repeat' split
+  all_goals first
+    | (simp; done)
+    | (rename_i e h; have := structUnpack_error _ _ _ h; subst this; simp)
+
+/-- the theorem above is about `unpackWith fl` for every rounding function; the driver's `State2.unpack` is the
+    instance `fl = Float.rne` -/
+theorem TDF2_unpack_driver_outcomes (t : TimeFmt.State2) (buf : Bytes) :
+    (TimeFmt.State2.unpack t buf).2 = .ok () ∨ (TimeFmt.State2.unpack t buf).2 = .error .struct :=
+  TDF2_unpack_outcomes _ t buf
+
+-- `bcdToIntF_fuel` (hypothesis `v ≤ f`): 0x1234 with more fuel than digits gives the same value as with fuel `v`
+example : (0x1234 : Nat) ≤ 5000 ∧ TimeFmt.bcdToIntF 5000 0x1234 = 1234 ∧ TimeFmt.bcdToInt 0x1234 = 1234 := by decide +kernel
 end Acra.Props.C08
